@@ -48,6 +48,11 @@ pub struct Req {
     /// stacked configuration only: the raw `X-Token` value for the inner fang (None = header absent)
     #[serde(default)]
     pub inner: Option<String>,
+    /// (wave 14) just before this request, on the same connection, a request that carries this VALID token (no time claims)
+    /// of the realm it goes to, but is refused by the parser (a header value that is not UTF-8, behind the token's
+    /// line): nothing of it may still be there when this request is judged
+    #[serde(default)]
+    pub after_refused: Option<String>,
 }
 #[derive(Clone, Debug, Serialize, Deserialize)]
 pub struct Scenario {
@@ -369,7 +374,7 @@ fn gen_req(sc_alg: u16, secret: &str, now_base: u64, issue: &dyn Fn(&Value) -> S
         _ => ("missing".into(), None),
     };
     let method = if t::chance(1, 12) { "OPTIONS" } else if t::chance(1, 4) { "POST" } else { "GET" };
-    Req { method: method.into(), authorization: auth, kind, now, reconnect_before: t::chance(1, 6), decoy: None, realm: 0, inner: None }
+    Req { method: method.into(), authorization: auth, kind, now, reconnect_before: t::chance(1, 6), decoy: None, realm: 0, inner: None, after_refused: None }
 }
 
 fn make_jwt(alg: u16, secret: &str) -> JWT<Value> {
@@ -484,6 +489,15 @@ pub fn generate(_cfg: &RunCfg, _out: &mut Outcome) -> Scenario {
             r.inner = inner.filter(|x| !x.is_empty());
         }
     }
+    if !stacked {
+        for r in reqs.iter_mut() {
+            if t::chance(1, 6) {
+                let v = json!({"sub": "left-behind", "n": t::range(0, 1000)});
+                r.after_refused = Some(if r.realm == 1 && second.is_some() { issue2(&v) } else { issue(&v) });
+                r.reconnect_before = false;
+            }
+        }
+    }
     Scenario { alg, secret, placement, reqs, token_source, second, stacked }
 }
 
@@ -578,6 +592,26 @@ fn execute(sc: &Scenario, out: &mut Outcome) {
                 w.wall_frozen = Some(r.now);
                 w.count("fault.clock_jump");
             });
+            if let Some(tok) = &r.after_refused {
+                let cl = c.as_mut().unwrap();
+                let tmp = Req { authorization: Some(format!("Bearer {tok}")), decoy: None, inner: None, after_refused: None, ..r.clone() };
+                let (auth, _) = wire(token_source, &tmp);
+                let mut bytes = format!("GET {} HTTP/1.1\r\nHost: s\r\n{auth}X-Client-Name: caf", if r.realm == 1 { "/api2/me" } else { "/api/me" }).into_bytes();
+                bytes.extend_from_slice(b"\xe9\r\n\r\n");
+                if bytes.len() < 1000 {
+                    cl.send(&bytes, 0);
+                    simcore::with(|w| w.count("c12.refused_request_with_a_valid_token_first"));
+                    if cl.recv(false, DEFAULT_TIMEOUT).await.is_err() {
+                        c = None;
+                    }
+                }
+                if c.is_none() {
+                    match Client::connect(rt::ADDR, ConnCfg::default()).await {
+                        Ok(x) => c = Some(x),
+                        Err(_) => return,
+                    }
+                }
+            }
             let cl = c.as_mut().unwrap();
             let (mut auth, _) = wire(token_source, r);
             if let Some(x) = &r.inner {
